@@ -424,6 +424,8 @@ func (env *Env) middleware(id string, i int) actor.MiddlewareFunc {
 			st := in.mwOf()
 			st.cur = append(st.cur, fmt.Sprintf("in%d:%s:%s", i, tag, pidStr(c.Sender())))
 			mark := st.last
+			// a delivery can be pre-empted between two levels of its chain
+			simrt.Yield(simrt.OpUser)
 			defer func() {
 				// the receiver ran (last advanced): the exit belongs to that delivery
 				st := in.mwOf()
